@@ -100,41 +100,46 @@ def first_para(notes):
     return " ".join(notes.strip().split("\n")[:12])[:1200]
 
 
-def run(ids):
+def run_one(sid):
     claimed = json.load(open(os.path.join(VERIF, "claimed.json")))
+    d = os.path.join(VERIF, "seeded", sid)
+    if not os.path.exists(os.path.join(d, "patch.diff")):
+        return sid, None
+    root = tempfile.mkdtemp(prefix="seedrun_")
+    try:
+        shutil.copytree("/repo/statham", os.path.join(root, "statham"), ignore=shutil.ignore_patterns("__pycache__"))
+        ap = subprocess.run(["patch", "-p1", "-s", "-f", "-d", root, "-i", os.path.join(d, "patch.diff")], capture_output=True, text=True)
+        if ap.returncode != 0:
+            return sid, {"error": "patch does not apply to current /repo: " + ap.stdout[-200:]}
+        meta = json.load(open(os.path.join(d, "meta.json")))
+        fired = {}
+        for pid in claimed:
+            p = subprocess.run([os.path.join(VERIF, "check"), pid, "--repo", root, "--no-evidence"], capture_output=True, text=True)
+            if p.returncode == 1:
+                viol = [l.strip() for l in p.stdout.splitlines() if l.startswith("  ") and "::" in l and not l.startswith("      ")]
+                fired[pid] = viol[:4]
+            elif p.returncode == 2:
+                fired[pid] = ["ANALYSIS-ERROR " + p.stdout.strip().splitlines()[0][:200]]
+        own = meta["breaks_property"]
+        res = {"property": own, "own_check": "fires" if (own in fired and not fired[own][0].startswith("ANALYSIS")) else (
+            "not-claimed" if own not in claimed else ("analysis-error" if own in fired else "MISSED")), "fired": fired}
+        meta["detected_by"] = fired
+        with open(os.path.join(d, "meta.json"), "w") as fh:
+            json.dump(meta, fh, indent=1)
+        return sid, res
+    finally:
+        shutil.rmtree(root, ignore_errors=True)
+
+
+def run(ids):
+    from concurrent.futures import ThreadPoolExecutor
     base = os.path.join(VERIF, "seeded")
-    ids = ids or sorted(os.listdir(base))
-    summary = {}
-    for sid in ids:
-        d = os.path.join(base, sid)
-        if not os.path.exists(os.path.join(d, "patch.diff")):
-            continue
-        root = tempfile.mkdtemp(prefix="seedrun_")
-        try:
-            shutil.copytree("/repo/statham", os.path.join(root, "statham"), ignore=shutil.ignore_patterns("__pycache__"))
-            ap = subprocess.run(["patch", "-p1", "-s", "-d", root, "-i", os.path.join(d, "patch.diff")], capture_output=True, text=True)
-            if ap.returncode != 0:
-                summary[sid] = {"error": "patch does not apply to current /repo: " + ap.stdout[-200:]}
+    ids = ids or sorted(x for x in os.listdir(base) if os.path.isdir(os.path.join(base, x)))
+    with ThreadPoolExecutor(14) as ex:
+        for sid, s in ex.map(run_one, ids):
+            if s is None:
                 continue
-            meta = json.load(open(os.path.join(d, "meta.json")))
-            fired = {}
-            for pid in claimed:
-                p = subprocess.run([os.path.join(VERIF, "check"), pid, "--repo", root, "--no-evidence"], capture_output=True, text=True)
-                if p.returncode == 1:
-                    viol = [l.strip() for l in p.stdout.splitlines() if l.startswith("  ") and "::" in l and not l.startswith("      ")]
-                    fired[pid] = viol[:4]
-                elif p.returncode == 2:
-                    fired[pid] = ["ANALYSIS-ERROR " + p.stdout.strip().splitlines()[0][:200]]
-            own = meta["breaks_property"]
-            summary[sid] = {"property": own, "own_check": "fires" if (own in fired and not fired[own][0].startswith("ANALYSIS")) else (
-                "not-claimed" if own not in claimed else ("analysis-error" if own in fired else "MISSED")), "fired": fired}
-            meta["detected_by"] = fired
-            with open(os.path.join(d, "meta.json"), "w") as fh:
-                json.dump(meta, fh, indent=1)
-        finally:
-            shutil.rmtree(root, ignore_errors=True)
-    for sid, s in summary.items():
-        print(sid, s.get("property"), s.get("own_check"), {k: v[:2] for k, v in s.get("fired", {}).items()}, s.get("error", ""))
+            print(sid, s.get("property"), s.get("own_check"), {k: v[:2] for k, v in s.get("fired", {}).items()}, s.get("error", ""), flush=True)
     return 0
 
 
